@@ -94,6 +94,17 @@ def enum_revisit(tier):
                         yield {"nodes": nodes2, "start": 0, "maxr": maxr, "follow": True, "badhost": "a", "bad_after": after}
 
 
+def enum_chains(tier):
+    """Loop-free chains of L redirects (one URL per hop, hosts a, b, c in turn) against every budget 0..8."""
+    for L in range(0, 9):
+        nodes = [{"k": "redir", "to": i + 1, "status": 30 if i % 2 else 31, "port": bool(i % 3 == 0)} for i in range(L)] + [{"k": "final"}]
+        for maxr in range(0, 9):
+            yield {"nodes": nodes, "start": 0, "maxr": maxr, "follow": True, "badhost": None, "bad_after": 0}
+            if L >= 2:
+                # a second fetch on the same client object, in flight at the same time
+                yield {"nodes": nodes, "start": 0, "maxr": maxr, "follow": True, "badhost": None, "bad_after": 0, "twin_start": 1}
+
+
 def walk(case):
     nodes, cur, maxr = case["nodes"], case["start"], case["maxr"]
     followed = 0
@@ -170,29 +181,39 @@ def run_case(case: dict):
         c12._patch()
         if case.get("dbfault"):
             c12._State.n, c12._State.kind, c12._State.count, c12._State.active = case["dbfault"], "error", 0, True
+        async def one(start):
+            try:
+                r = await client.get(url_of(start), follow_redirects=case["follow"])
+                return ("resp", r.status, r.meta, r.body)
+            except CertificateChangedError as e:
+                return ("changed", e.hostname)
+            except ValueError as e:
+                return ("valueerror", str(e)[:60])
+            except Exception as e:
+                return ("exc", type(e).__name__, str(e)[:60])
+
+        twin_res = None
         try:
-            r = await client.get(url_of(case["start"]), follow_redirects=case["follow"])
-            res = ("resp", r.status, r.meta, r.body)
-        except CertificateChangedError as e:
-            res = ("changed", e.hostname)
-        except ValueError as e:
-            res = ("valueerror", str(e)[:60])
-        except Exception as e:
-            res = ("exc", type(e).__name__, str(e)[:60])
+            if case.get("twin_start") is not None:
+                import asyncio as _aio
+
+                res, twin_res = await _aio.gather(one(case["start"]), one(case["twin_start"]))
+            else:
+                res = await one(case["start"])
         finally:
             c12._State.active = False
         lines = []
         for h in HOSTS:
             for c in peers[h].conns:
                 lines.append(bytes(c.received).split(b"\r\n", 1)[0])
-        return res, [(h, p) for (h, p, _t) in loop.connection_log], lines
+        return res, [(h, p) for (h, p, _t) in loop.connection_log], lines, twin_res
 
     import os
 
     old_home = os.environ.get("HOME")
     os.environ["HOME"] = d  # a client that falls back to its default trust store must not touch the real one
     try:
-        res, conns, lines = vloop.run(scenario, horizon=1e6)
+        res, conns, lines, twin_res = vloop.run(scenario, horizon=1e6)
     finally:
         import shutil
 
@@ -203,6 +224,21 @@ def run_case(case: dict):
         shutil.rmtree(d, ignore_errors=True)
     info = {"result": str(res)[:100], "connections": len(conns)}
     maxr = case["maxr"]
+    if twin_res is not None:
+        # two fetches shared one client object: each is judged on its own chain (no certificate trouble in these cases)
+        for start, r_ in ((case["start"], res), (case["twin_start"], twin_res)):
+            ref_ = walk({**case, "start": start})
+            if ref_[0] == "final":
+                exp_ = ("resp", 20, "text/gemini", f"BODY-n{ref_[1]}")
+                if r_ != exp_:
+                    return viol("chain-within-limit-not-followed", f"fetch from n{start} (another fetch in flight on the same client): chain of "
+                                f"{len(ref_[2]) - 1} redirects, max_redirects={maxr}: expected {exp_}, got {r_}", **info)
+            elif ref_[0] == "error" and r_[0] == "resp":
+                return viol("loop-or-long-chain-not-reported", f"fetch from n{start} (another fetch in flight): {ref_[1]}: got {r_}", **info)
+        total = sum(min(len(walk({**case, "start": st_})[2]), maxr + 1) for st_ in (case["start"], case["twin_start"]))
+        if len(conns) > total:
+            return viol("too-many-connections", f"{len(conns)} connections for two fetches that need at most {total}", **info)
+        return ok(twin=True, **info)
     for ln in lines:
         if ln and not ln.startswith(b"gemini://"):
             return viol("non-gemini-url-requested", f"{ln[:80]!r}", **info)
@@ -285,6 +321,12 @@ LANES = [
     Lane(name="revisit", cpu_limit=30.0, run_case=run_case, enumerate=enum_revisit, budget={"quick": 1, "thorough": 1},
          shards={"quick": 8, "thorough": 8}, nontrivial=_nontrivial, labels=_labels, exhaustive=True,
          rule="chains revisiting a host whose certificate changes after its first k connections (enumerated family)"),
+    Lane(name="chains", cpu_limit=30.0, run_case=run_case, enumerate=enum_chains, budget={"quick": 1, "thorough": 1},
+         shards={"quick": 8, "thorough": 8}, nontrivial=lambda c, v: len(c["nodes"]) > 1,
+         labels=lambda c, v: ["len:%d" % (len(c["nodes"]) - 1), "maxr:%d" % c["maxr"]] + (["twin"] if c.get("twin_start") is not None else []),
+         exhaustive=True,
+         rule="every loop-free chain length 0..8 against every budget 0..8 (also beyond the library default of 5), alone and with "
+              "a second fetch in flight on the same client object"),
     Lane(name="small-graphs", cpu_limit=30.0, run_case=run_case, enumerate=enum_small, budget={"quick": 1, "thorough": 1},
          shards={"quick": 16, "thorough": 64}, nontrivial=_nontrivial, labels=_labels, exhaustive=True,
          rule="all graphs over N<=2 (quick) / N<=3 (thorough) nodes x max_redirects 0-3 x follow on/off x changed-pin host"),
